@@ -109,3 +109,46 @@ func VerifC13_NestedAction() {
 	ab, _ := a.MarshalBinary()
 	vr.Assert(int(a.Len()) == len(ab), "child-len==bytes-afterwards")
 }
+
+// switch-side and error kinds built with their constructors only (no derived length field set
+// by hand): what a second encoding produces must be what the first produced
+func VerifC13_ConstructorOnly() {
+	var m util.Message
+	switch vr.Choice("kind", 6) {
+	case 0:
+		vr.Tag("kind", "BundleError")
+		e := NewBundleError()
+		e.Code = vr.U16("ecode")
+		e.Data = *util.NewBuffer(vr.Bytes("edata", vr.IntRange("edatalen", 0, 5)))
+		m = e
+	case 1:
+		vr.Tag("kind", "ErrorMsg")
+		e := NewErrorMsg()
+		e.Type, e.Code = vr.U16("etype"), vr.U16("ecode")
+		e.Data = *util.NewBuffer(vr.Bytes("edata", vr.IntRange("edatalen", 0, 5)))
+		m = e
+	case 2:
+		vr.Tag("kind", "PacketIn")
+		p := NewPacketIn()
+		p.Cookie = vr.U64("cookie")
+		p.Match.AddField(*buildField(0))
+		p.Data = bldEthernetRaw(4)
+		m = p
+	case 3:
+		vr.Tag("kind", "FlowRemoved")
+		f := NewFlowRemoved()
+		f.Match.AddField(*buildField(0))
+		m = f
+	case 4:
+		vr.Tag("kind", "PortStatus")
+		p := NewPortStatus()
+		p.Desc = *bldPhyPort()
+		m = p
+	default:
+		vr.Tag("kind", "FeaturesReply")
+		f := NewFeaturesReply()
+		f.Ports = append(f.Ports, *bldPhyPort())
+		m = f
+	}
+	c13repeat(m)
+}
